@@ -140,6 +140,23 @@ def chanProg : Prog :=
   .byte fun _ => .alloc (.byte fun _ => .int fun _ => .int fun count =>
     if count < 0 then .fail else janetN count.toNat .done)
 
+/-- `n` calls of `janet_unmarshal_int` -/
+def intN : Nat → Prog → Prog
+  | 0, k => k
+  | n + 1, k => .int fun _ => intN n k
+
+/-- `peg_marshal` (peg.c): size bytecode_len; int num_constants; janet_marshal_abstract; every bytecode word as an int (its
+int32 view); every constant -/
+def pegItems (bytecode : List Int) (constants : List Val) : List AItem × List AItem :=
+  ([.i64 bytecode.length, .int constants.length], bytecode.map .int ++ constants.map .janet)
+
+/-- the reading part of `peg_unmarshal`: size, int (as uint32: a negative count is "invalid peg size", as is a length above
+INT32_MAX), janet_unmarshal_abstract, `bytecode_len` ints, `num_constants` values.  The `janet_unmarshal_ensure` pre-check and
+the verification of the bytecode that follows the reads are not part of the protocol model (C10 / C12). -/
+def pegProg : Prog :=
+  .i64 fun len => .int fun k =>
+    if len > 2147483647 ∨ k < 0 then .fail else .alloc (intN len (janetN k.toNat .done))
+
 /-! ### shape of a hook, for comparison with the call sequence extracted from the C source -/
 
 def itemKind : AItem → String
